@@ -991,6 +991,170 @@ def stream_sequence(chk, i, rng):
         chk.sample({"stream": "sequence", **{k: v for k, v in replay.items() if k not in ("X", "y")}, "score": got})
 
 
+# ------------------------------------------------------------------ stream: every public entry point that trains or scores
+class Recording:
+    """Records the affinity the objective actually receives: MMD / Wasserstein evaluate (patched on the classes, from
+    outside), and the kernel handed to Kauri's split search and objective (module attributes of gemclus.tree.kauri)."""
+
+    def __enter__(self):
+        import gemclus.tree.kauri as kmod
+        self.kmod, self.log, self.saved = kmod, [], []
+        log = self.log
+        for cls in (G.MMDGEMINI, G.WassersteinGEMINI):
+            orig = cls.evaluate
+
+            def ev(self_, y_pred, affinity, return_grad=False, _o=orig):
+                log.append(affinity)
+                return _o(self_, y_pred, affinity, return_grad)
+            self.saved.append((cls, "evaluate", orig))
+            cls.evaluate = ev
+        for nm, pos in (("find_best_split", 0), ("gemini_objective", 1)):
+            orig = getattr(kmod, nm)
+
+            def wrapped(*a, _o=orig, _p=pos, **k):
+                log.append(a[_p])
+                return _o(*a, **k)
+            self.saved.append((kmod, nm, orig))
+            setattr(kmod, nm, wrapped)
+        return self
+
+    def __exit__(self, *exc):
+        for obj, nm, orig in self.saved:
+            setattr(obj, nm, orig)
+        return False
+
+    def take(self):
+        out = list(self.log)
+        self.log.clear()
+        return out
+
+
+def stream_entrypoints(chk, i, rng):
+    """fit, fit_predict, score, path (and predict after fit for KernelRIM): named, precomputed and callable spellings of one
+    affinity must reach the objective as the same matrix through every entry point and give the same clustering."""
+    pool = MMD_EST + WAS_EST + ["Kauri", "LinearModel", "Kauri", "SparseMLPModel", "KernelRIM", "Douglas", "Kauri"]
+    name = pool[i % len(pool)]
+    wass = name in WAS_EST or (name in GEN_EST and rng.random() < 0.35)
+    n, d = int(rng.integers(8, 15 if wass else 22)), int(rng.integers(2, 5))
+    if wass:
+        fn = str(rng.choice([m for m in METRICS if m != "haversine"]))
+        ps = metric_params_for(rng, fn) if rng.random() < 0.5 else None
+    else:
+        fn = str(rng.choice([k for k in KERNELS if k != "linear"] if name == "Kauri" else KERNELS))
+        ps = kernel_params_for(rng, fn) if (rng.random() < 0.7 and name != "Kauri") else None
+    X = impl.blobs(rng, n, d, k=3) * 0.7
+    if fn in ("chi2", "additive_chi2"):
+        X = np.abs(X) + 0.05
+    X = np.ascontiguousarray(X)
+    f = pairwise_distances if wass else pairwise_kernels
+    K = f(X, metric=fn, **(ps or {}))
+    fa, pa = ("metric", "metric_params") if wass else ("kernel", "kernel_params")
+    seed = int(rng.integers(0, 1000))
+    ovo = bool(rng.integers(0, 2))
+    replay = {"estimator": name, "fn": fn, "params": repr(ps), "ovo": ovo, "seed": seed, "X": X.tolist()}
+
+    def user_fn(A, B=None):
+        return f(A, metric=fn, **(ps or {})) if B is None else f(A, B, metric=fn, **(ps or {}))
+
+    if name == "Kauri":
+        kw = dict(max_clusters=int(rng.integers(2, 5)), min_samples_leaf=1, min_samples_split=2, random_state=seed)
+        spell = {"named": (dict(kernel=fn), None), "precomputed": (dict(kernel="precomputed"), K)}
+    elif name == "KernelRIM":
+        kw = dict(n_clusters=int(rng.integers(2, 4)), max_iter=2, learning_rate=0.01, random_state=seed, batch_size=None)
+        spell = {"named": (dict(base_kernel=fn, base_kernel_params=ps), None), "callable": (dict(base_kernel=user_fn), None)}
+    else:
+        kw = dict(n_clusters=int(rng.integers(2, 4)), max_iter=2, learning_rate=0.01, random_state=seed, batch_size=None, n_hidden_dim=4, alpha=0.3, dynamic=False)
+        if name in GEN_EST:
+            gcls = G.WassersteinGEMINI if wass else G.MMDGEMINI
+            mk = lambda **a: dict(gemini=gcls(ovo=ovo, **a))                                   # noqa: E731
+        else:
+            mk = lambda **a: dict(ovo=ovo, **a)                                                # noqa: E731
+        spell = {"named": (mk(**{fa: fn, pa: ps}), None), "precomputed": (mk(**{fa: "precomputed"}), K), "callable": (mk(**{fa: user_fn}), None)}
+    replay["common"] = kw
+    results = {}
+    with Recording() as rec:
+        for sp, (cfg, y) in spell.items():
+            def new():
+                e = impl.make(name, **cfg, **kw)
+                if hasattr(e, "_batchify"):
+                    orig = e._batchify
+
+                    def batchify(Xb, A=None, random_state=None, _o=orig):
+                        for xb, ab in _o(Xb, A, random_state):
+                            if name != "KernelRIM":          # which samples, in which order, the next training evaluation sees
+                                rec.log.append(("rows", [int(np.flatnonzero((X == r).all(1))[0]) for r in np.asarray(xb)]))
+                            yield xb, ab
+                    e._batchify = batchify
+                return e
+            entries = {}
+            with warnings.catch_warnings(record=True) as wlog:
+                warnings.simplefilter("always")
+                est = new().fit(X, y)
+                entries["fit"] = (est.labels_, rec.take())
+                entries["fit_predict"] = (new().fit_predict(X, y), rec.take())
+                entries["score"] = (est.score(X, y), rec.take())
+                if name == "KernelRIM":
+                    Xn = impl.blobs(rng, 5, d, k=2) * 0.7 if fn not in ("chi2", "additive_chi2") else np.abs(impl.blobs(rng, 5, d, k=2)) + 0.05
+                    results.setdefault("_Xn", Xn)
+                    Xn = results["_Xn"]
+                    entries["predict"] = (est.predict(Xn), [est.training_kernel_])
+                    entries["predict_proba"] = (est.predict_proba(Xn), [])
+                if hasattr(est, "path"):
+                    r = new().path(X, y, alpha_multiplier=3.0, min_features=max(1, d - 1), max_patience=1)
+                    entries["path"] = ([np.asarray(v, dtype=float) for v in r[1:]], rec.take())
+            fallback = [str(w.message) for w in wlog if "linear" in str(w.message).lower() and "precomputed" in str(w.message).lower()]
+            if fallback and y is not None:
+                chk.fail(f"entrypoints:fallback-warning:{name}", f"{name}({sp}): a matrix was supplied, yet the 'fallback to the linear kernel' warning was emitted: {fallback[0][:80]}",
+                         dict(replay, spelling=sp), layer="L3")
+            results[sp] = entries
+            # the affinity the objective actually received through each entry point vs scikit-learn called directly
+            for ep, (_, mats) in entries.items():
+                if name == "KernelRIM" and ep != "predict":
+                    continue
+                if not [m for m in mats if not isinstance(m, tuple)] and ep in ("fit", "fit_predict", "score", "path"):
+                    chk.fail(f"entrypoints:{name}.{ep}:no-affinity", f"{name}({sp}).{ep}: the objective was never evaluated with an affinity", dict(replay, spelling=sp), layer="L3")
+                rows = None
+                for M in mats:
+                    if isinstance(M, tuple) and M[0] == "rows":
+                        rows = M[1]
+                        continue
+                    want = K if rows is None else K[np.ix_(rows, rows)]
+                    rows = None
+                    if M is None or np.shape(M) != want.shape or not close(M, want)[1]:
+                        chk.fail(f"entrypoints:{name}.{ep}:affinity", f"{name}({sp}).{ep}(X{', y=K' if y is not None else ''}): the affinity that reached the objective is not "
+                                 f"{'pairwise_distances' if wass else 'pairwise_kernels'}(X, metric={fn!r}, **{ps})", dict(replay, spelling=sp, entry=ep), layer="L3")
+                        break
+            if not np.array_equal(entries["fit"][0], entries["fit_predict"][0]):
+                chk.fail(f"entrypoints:{name}.fit_predict:labels", f"{name}({sp}).fit_predict(X{', y=K' if y is not None else ''}) differs from fit(..).labels_",
+                         dict(replay, spelling=sp), layer="L3")
+    # the spellings describe one and the same affinity: same clustering, score, path, predictions through every entry point
+    base = results["named"]
+    for sp in spell:
+        if sp == "named":
+            continue
+        for ep, (val, _) in results[sp].items():
+            a, b = base[ep][0], val
+            same = all(close(u, v, 1e-7)[1] for u, v in zip(a, b)) and len(a) == len(b) if ep == "path" else close(a, b, 1e-7 if ep == "score" else 1e-9)[1]
+            if not same:
+                chk.fail(f"entrypoints:{name}.{ep}:{sp}", f"{name}.{ep}: the {sp} spelling of {fn!r} gives a different result than naming it", dict(replay, spelling=sp, entry=ep), layer="L3")
+    # L2: the model's training affinity for each spelling denotes the same matrix
+    objs = Objs()
+    for sp, (cfg, y) in spell.items():
+        if name == "KernelRIM" or (name in GEN_EST):
+            continue
+        out = read_outcome(chk.ask(f"c11.affinity {xs(name)} {objs.kwargs(cfg)} {int(y is not None)}"))
+        e = expected_from_outcome(objs, out, X, y)
+        Mm = e[1](X) if e[0] == "callable" else e[1]
+        if e[0] not in ("equal", "is", "callable") or not close(Mm, K)[1]:
+            chk.fail("entrypoints:model-mismatch", f"{name}({sp}): the model's affinity {out} does not denote the matrix the estimator trains with", dict(replay, spelling=sp))
+    chk.traces += sum(len(v) for k, v in results.items() if k != "_Xn")
+    chk.dist[f"entrypoints:{name}"] += 1
+    distinct = name != "Kauri" or not np.array_equal(results["named"]["fit"][0], impl.Kauri(kernel="linear", **kw).fit(X).labels_)
+    chk.count(("entry", name, fn, repr(ps), ovo, n) if distinct else None)
+    if i < 1:
+        chk.sample({"stream": "entrypoints", **{k: v for k, v in replay.items() if k != "X"}, "entry_points": sorted(results["named"])})
+
+
 def stream_kauri_missing(chk, i, rng):
     """Whole-fit replay of the refuted statement's witness (F17): Kauri(kernel='precomputed').fit(X) without a matrix."""
     n, d = int(rng.integers(6, 20)), int(rng.integers(2, 4))
@@ -1017,7 +1181,7 @@ def stream_kauri_missing(chk, i, rng):
 
 
 STREAMS = {"ctor": (stream_ctor, 900, 9000), "get_gemini": (stream_get_gemini, 1800, 20000), "registry": (stream_registry, 100, 600),
-           "affinity": (stream_affinity, 2400, 25000), "equal": (stream_equal, 500, 5000), "sequence": (stream_sequence, 420, 5000), "kauri_missing": (stream_kauri_missing, 6, 40)}
+           "affinity": (stream_affinity, 2400, 25000), "equal": (stream_equal, 500, 5000), "sequence": (stream_sequence, 420, 5000), "entrypoints": (stream_entrypoints, 170, 2000), "kauri_missing": (stream_kauri_missing, 6, 40)}
 
 
 def main():
@@ -1042,7 +1206,9 @@ def main():
                     "(exact equality, object identity for callables and precomputed, errors for a missing matrix or malformed parameters); whole fits, sparse paths (dynamic=False) and Kauri trees "
                     "with a named affinity vs the equal precomputed matrix; sequences fit -> set_params(kernel / kernel_params / metric / metric_params / ovo / gemini / base_kernel / Kauri kernel) -> score(X[, y]) "
                     "(and set_params before the first fit as a control): the score must be the GEMINI and affinity the CURRENT hyper-parameters describe (model and documentation), "
-                    "a missing precomputed matrix must raise. non-trivial = a configuration that departs from the defaults (non-default branch, parameters that change the matrix, "
+                    "a missing precomputed matrix must raise; entry points: fit, fit_predict, score, path (sparse), predict / predict_proba after fit (KernelRIM) for every estimator exposing kernel / metric / "
+                    "base_kernel / an MMD or Wasserstein gemini instance, in the named, precomputed and callable spellings of one affinity: the matrix recorded at the objective (MMD / Wasserstein evaluate, "
+                    "Kauri's split search and objective) must be the scikit-learn matrix, fit_predict = fit(..).labels_, all spellings agree, no linear-fallback warning when a matrix is given. non-trivial = a configuration that departs from the defaults (non-default branch, parameters that change the matrix, "
                     "a tree with a split, a path with two steps); distinct = distinct configuration signature")
 
 
